@@ -75,6 +75,7 @@ type H13Variant struct {
 }
 
 type CaseC13 struct {
+	vt.Env
 	Kind       string // "copy" | "edit:<name>" | "independent"
 	IsVehicle  bool
 	TripA      *H13Trip    `json:",omitempty"`
@@ -928,6 +929,7 @@ func g13Variant(t *rapid.T, l string) H13Variant {
 
 func genC13(t *rapid.T) CaseC13 {
 	c := CaseC13{IsVehicle: rapid.Bool().Draw(t, "isVehicle"), VarA: g13Variant(t, "a"), VarB: g13Variant(t, "b")}
+	c.Env = genEnv(t)
 	mode := rapid.IntRange(0, 9).Draw(t, "mode")
 	switch {
 	case mode <= 1:
